@@ -52,11 +52,12 @@ def entry(vtype, key: str, parent_tbl, parent_off, payload: bytes, *, flags=0, p
     return hdr + kb + payload + bytes(pad)
 
 
-def free_entry(size, flags=0, stale_key=b""):
-    """A released entry: type Free (low byte); flag bits and the old key / data may still be there."""
+def free_entry(size, flags=0, stale_key=b"", stale_hdr=(0, 0, 0, 0)):
+    """A released entry: type Free (low byte); flag bits, the old key / data and the old header words (parent reference - its
+    table or entry may be gone by now -, key checksum, sequence number) may still be there."""
     assert size >= 21
     body = (stale_key + b"\0")[:size - 21] if stale_key else b""
-    return struct.pack("<HIHIIIB", T_FREE | (flags << 8), size, 0, 0, 0, 0, len(body)) + body.ljust(size - 21, b"\xEE" if stale_key else b"\0")
+    return struct.pack("<HIHIIIB", T_FREE | (flags << 8), size, *stale_hdr, len(body)) + body.ljust(size - 21, b"\xEE" if stale_key else b"\0")
 
 
 class Layout:
@@ -81,7 +82,7 @@ def build(tables, file_objects=None, *, hdr_seqs=(2, 1), sigs=None, version=0x40
     out = {}
     objs = []
     for t in tables:
-        body = struct.pack("<HHHI", sigs.get("keytab", SIG_KEYTAB), t["idx"], t["seq"], 0) + b"".join(t["entries"])
+        body = struct.pack("<HHHI", t.get("sig", sigs.get("keytab", SIG_KEYTAB)), t["idx"], t["seq"], 0) + b"".join(t["entries"])
         size = -(-max(len(body) + 32, table_size) // ALIGN) * ALIGN
         off = t.get("offset") or lay.alloc(size)
         out[off] = body.ljust(size, b"\0")
@@ -199,7 +200,8 @@ def plan_tables(nodes, *, ntables_free=(), stale=(), newer_first=True, big_thres
             for e in seq_entries:
                 if e[0] == "free":
                     if flag_rng is not None and flag_rng.random() < 0.6:
-                        out.append(free_entry(e[1], flags=flag_rng.choice([1, 2, 3]), stale_key=b"stale-key"))
+                        out.append(free_entry(e[1], flags=flag_rng.choice([1, 2, 3]), stale_key=b"stale-key",
+                                              stale_hdr=flag_rng.choice([(0, 0, 0, 0), (77, 10, 0x1234, 5), (t, 0x7FF0, 0xFFFFFFFF, 9), (0xFFFF, 0xFFFFFFFF, 1, 0xFFFFFFFF), (t, 11, 3, 3)])))
                     else:
                         out.append(free_entry(e[1]))
                 else:
